@@ -53,6 +53,8 @@ def expected_note_count(text: str) -> int:
     (an optional priority may be part of that; 'o P1' alone is a todo whose body
     is 'P1')."""
     n = 0
+    # the compiler reads the file as ASCII and drops every byte that is not
+    text = text.encode("utf-8", "surrogateescape").decode("ascii", "ignore")
     for line in text.replace("\r\n", "\n").split("\n"):
         if len(line) < 3 or line[0] not in "-ox~<>" or line[1] != " ":
             continue
@@ -231,6 +233,13 @@ for _pre in ("- ", "o ", "o P1 ", "x "):
     for _w in ("2024-03-13", "240313", "P1", "o", "x", "1230", "[[x]]", "#t", "k::v", "[k:: v w]",
                "2024-03-13 x", "P1 P2", "2024-03-13\n  * bullet", "a\n  2024-03-13"):
         CMD_TEXTS.append((f"unusual-item:{_pre}{_w}".replace("\n", "\\n"), f"# h\n\n{_pre}{_w}\n"))
+# contents that are not valid UTF-8 (a lone surrogate \udcXX stands for the raw byte XX): a page saved
+# as ISO-8859-1, a stray 0xFF, a multi-byte sequence cut off by the end of the line / of the file
+RAW_BYTES = ["- 240101#0A caf\udce9 au lait", "- caf\udce9 without a zid", "# caf\udce9\n\n- 240101#0A n",
+             "- 240101#0A stray \udcff byte", "- 240101#0A cut \udcc3", "- a\n  * k:: \udce9t\udce9",
+             "\udcef\udcbb\udcbf- 240101#0A after a BOM", "- 240101#0A ok\n\udc80\udc80", "- 240101#0A two \udce9\udce8 x"]
+for _k, _t in enumerate(RAW_BYTES):
+    CMD_TEXTS.append((f"unusual-item:raw-bytes-{_k}", f"# h\n\n{_t}\n"))
 
 
 def _run_cmd_case(ctx, case) -> F.Outcome:
@@ -285,7 +294,7 @@ def _run_cmd_case(ctx, case) -> F.Outcome:
             r = Z.db_create(zd, day)
             if not Z.cli_ok(r):
                 raise H.HarnessError("setup create failed: " + r.err[-300:])
-            (zd / "zz_target.zo").write_text(text)
+            Z.write_text(zd / "zz_target.zo", text)
             r = Z.db_reindex(zd, day)
             idx = IR.read_index(zd)
             if broken and Z.cli_ok(r):
@@ -501,6 +510,9 @@ def _cases(ctx):
               "'[a::b::c]'", "\"a::b::c\"", "[k:: v] [k:: w]", "https://x.y/a::b"):
         for pre in ("- ", "o P1 240101#0A ", "# ", "# t\n\n################################ "):
             flat.append(["digits", pre + w + " tail" if not pre.endswith("# ") or True else pre + w])
+    for t in RAW_BYTES:
+        flat.append(["digits", t])
+        flat.append(["digits", t + "\n- 240102#0B a clean note after it"])
     for bm in ("  * ", "    - ", "      + "):
         for body in ("k::", "k:: v", ":: v", "k::  *   * c", "::", "k::\n" + bm + "j:: w"):
             flat.append(["digits", "- a:: b\n" + bm + body])
